@@ -12,7 +12,7 @@ from rules.listsearch import SEARCHES, CASES, walk_case, buffer_of
 RULE = 'UNCHECKED'
 
 
-def guard_lt(prog, b, idx, call, len_field_pred):
+def guard_lt(prog, b, idx, call, len_field_pred, field_name_pred=None):
     """is there a dominating branch idx < len(X) (true side) for the call, X satisfying len_field_pred, with the
     length read not invalidated by a mutation between the read and the use?"""
     from rules.gate import edge_truth
@@ -27,13 +27,35 @@ def guard_lt(prog, b, idx, call, len_field_pred):
         if not same:
             continue
         if not (big.kind == 'call' and big.callee_name() == 'len' and len_field_pred(big)):
-            continue
+            # a crate helper that returns the length of a field of its receiver (`fn len(&self) -> usize { self.buffer.len() }`)
+            if not (big.kind == 'call' and helper_len_field(prog, big) is not None and field_name_pred is not None and field_name_pred(helper_len_field(prog, big))):
+                continue
         t = b.mir['blocks'][s]['term']
         for succ in cfg.succ[s]:
             tr = edge_truth(t, succ)
             if tr and cfg.pred[succ] == [s] and cfg.dominates(succ, call.point[0]):
                 return big, s
     return None, None
+
+
+def helper_len_field(prog, call):
+    """name of the field whose length the crate function called here returns, or None"""
+    tgt = prog.resolve(call)
+    if tgt is None or tgt.is_closure or tgt.body.arg_count != 1 or len(tgt.body.cfg.returns) != 1:
+        return None
+    rv = strip(tgt.body.ret_val[tgt.body.cfg.returns[0]])
+    if rv.kind != 'call' or rv.callee_name() != 'len' or prog.resolve(rv) is not None or not rv.args:
+        return None
+    base = strip(rv.args[0])
+    while base.kind == 'call' and base.callee_name() in ('deref', 'deref_mut'):
+        base = strip(base.args[0])
+    if base.kind not in ('ref', 'load'):
+        return None
+    root = strip(base.args[0])
+    f = base.fields()
+    if root.kind == 'param' and root.args[0] == 1 and f:
+        return f[-1]
+    return None
 
 
 def pred_base(v, fields):
@@ -120,7 +142,7 @@ def run(ctx):
                     return False
                 f = base.fields()
                 return bool(f) and f[-1] == fields[-1]
-            lencall, sw = guard_lt(prog, b, idx, c, pred)
+            lencall, sw = guard_lt(prog, b, idx, c, pred, lambda fname, fields=fields: fname == fields[-1])
             if lencall is None:
                 # (c) the index is produced by iterating the range lo..len(vector): below len by construction, as long as
                 #     nothing shrinks the vector inside the loop
